@@ -182,8 +182,29 @@ fn sig_algs() -> Vec<&'static rcgen::SignatureAlgorithm> {
 	crate::props::c11::algos().into_iter().map(|x| x.1).collect()
 }
 
+/// Set by the libFuzzer targets: their panic hook aborts before `catch_unwind` can classify a panic,
+/// so inputs that would walk into a recorded known finding are excluded by construction there.
+pub static SKIP_KNOWN_TRIGGERS: std::sync::atomic::AtomicBool = std::sync::atomic::AtomicBool::new(false);
+
+/// Imported parameters that carry the K-IA5 trigger: non-ASCII text in a name-constraint
+/// Rfc822Name / DnsName (the importer copies these from the certificate into plain `String`s).
+fn imported_ia5_trigger(p: &rcgen::CertificateParams) -> bool {
+	p.name_constraints.iter().any(|nc| {
+		nc.permitted_subtrees.iter().chain(nc.excluded_subtrees.iter()).any(|s| match s {
+			rcgen::GeneralSubtree::Rfc822Name(t) | rcgen::GeneralSubtree::DnsName(t) => !t.is_ascii(),
+			_ => false,
+		})
+	})
+}
+
 /// Feeds one byte string (and one text) to every parsing entry point. A panic is the failure.
+/// `known` collects the classes of recorded known findings that were hit (and tolerated).
 pub fn feed_all(bytes: &[u8], text: &str, alg_idx: usize) -> Result<u32, String> {
+	let mut known = Vec::new();
+	feed_all_known(bytes, text, alg_idx, &mut known)
+}
+
+pub fn feed_all_known(bytes: &[u8], text: &str, alg_idx: usize, known: &mut Vec<&'static str>) -> Result<u32, String> {
 	let mut accepted = 0u32;
 	macro_rules! call {
 		($what:expr, $e:expr) => {{
@@ -198,9 +219,24 @@ pub fn feed_all(bytes: &[u8], text: &str, alg_idx: usize) -> Result<u32, String>
 	if let Ok(params) = r {
 		accepted += 1;
 		let key = keys::make_key(&KeySpec { alg: KeyAlg::Ed25519, idx: 0, rsa_hash: RsaHash::Sha256, remote: !cfg!(feature = "crypto") })?;
-		let p2 = params.clone();
-		let _ = call!("self_signed on imported CA parameters", p2.self_signed(&key));
-		let _ = call!("serialize_request on imported CA parameters", params.serialize_request(&key));
+		if imported_ia5_trigger(&params) {
+			// the recorded finding K-IA5, reached through import: confirm it here (tolerating only the
+			// recorded panic), skip it under libFuzzer
+			if !SKIP_KNOWN_TRIGGERS.load(std::sync::atomic::Ordering::Relaxed) {
+				let p2 = params.clone();
+				match no_panic(|| p2.self_signed(&key)) {
+					Ok(_) => {},
+					Err(p) => match findings::c10_known_class(TriggerClass::Ia5, &p) {
+						Some(c) => known.push(c),
+						None => return Err(format!("{p} in self_signed on imported CA parameters")),
+					},
+				}
+			}
+		} else {
+			let p2 = params.clone();
+			let _ = call!("self_signed on imported CA parameters", p2.self_signed(&key));
+			let _ = call!("serialize_request on imported CA parameters", params.serialize_request(&key));
+		}
 	}
 	let _ = call!("CertificateParams::from_ca_cert_pem", rcgen::CertificateParams::from_ca_cert_pem(text));
 	// CSR parsing, then issuance
@@ -303,7 +339,11 @@ pub fn check_bytes(c: &BytesCase, info: &mut CaseInfo) -> Result<(), String> {
 		}
 	}
 	let text = String::from_utf8_lossy(&text).to_string();
-	let accepted = feed_all(&bytes, &text, c.alg as usize)?;
+	let mut known = Vec::new();
+	let accepted = feed_all_known(&bytes, &text, c.alg as usize, &mut known)?;
+	for k in known {
+		info.class(format!("known:{k}"));
+	}
 	// non-trivial: still parses as one outer element (gets past the first length check)
 	let l = Lints::new();
 	info.nontrivial = !c.mutations.is_empty() && crate::der::read_tlv(&bytes, &l).map_or(false, |(t, rest)| rest.is_empty() && t.constructed);
@@ -593,8 +633,8 @@ pub fn def() -> PropertyDef {
 		rule: "Bytes: valid artefacts (rcgen certificates/CSRs/CRLs, OpenSSL-signed foreign CA certificates and CSRs, PKCS#8 / SEC1 / PKCS#1 fixture keys, SPKIs) and random strings, 0..3 structured mutations (flip, overwrite, insert, delete, truncate, run, splice), wrapped as PEM under 8 labels with 0..2 text edits, fed to every parsing entry point (CA import DER/PEM, CSR DER/PEM, 9 key loaders x algorithm, SPKI DER/PEM, from_utf16be/from_utf32be, the five TryFrom<&str>, CidrSubnet::from_str, CertificateParams::new); whatever a parser accepts is then used for generation (self_signed / serialize_request / signed_by). Parameters: the full space of the valid-domain generators plus oddities (empty lists, 300-byte serials, empty key ids, 70 kB custom content, duplicated standard OIDs) in 88 % clean cases, and 12 % cases carrying exactly one trigger of a recorded known-finding class at a generated site. Oracle: catch_unwind - Ok or Err passes, a panic is a violation unless it is the recorded panic of the trigger's class. Non-trivial = mutant that still spans one outer constructed element; every parameter case.",
 		assumptions: vec!["non-termination is caught by the watchdog (exit 2), not by the oracle", "the three documented panics (ACME digest length, serialising a remote key, impossible calendar date) are never generated"],
 		subs: vec![
-			prop_sub("bytes", 40_000, 2_000_000, bytes_case, check_bytes),
-			prop_sub("params", 20_000, 1_500_000, param_case, check_params),
+			prop_sub("bytes", 160_000, 2_000_000, bytes_case, check_bytes),
+			prop_sub("params", 80_000, 1_500_000, param_case, check_params),
 		],
 	}
 }
